@@ -3,6 +3,7 @@ import QuillModel.Props.C16
 import QuillModel.Props.C20
 import QuillModel.Props.C07Drain
 import QuillModel.Props.C17
+import QuillModel.Props.C17Removal
 /-!
 Side-conditions of the C16 / C17 / C20 / C07-drain theorems, re-proved for the facts extracted from the current
 headers (`tools/extractors/backend.py`). If an edit to the headers changes one of the constructs the model
@@ -117,6 +118,13 @@ theorem C17_erased_logger_has_no_record_extracted (s0 : BSt) (h0 : LoggerFresh s
       (st ∈ ((runOps s0 ops).th i).qStmts ∨ st ∈ ((runOps s0 ops).th i).buf) →
       ((runOps s0 ops).lgOf st.lg).erased = false :=
   (C17_erased_logger_has_no_record s0 h0 ops).1
+
+/-- instance of the global removal theorem: with the flag stored after the erase and the request enqueued before the
+    invalidation (`c17_structure`), a raised removal flag means the named logger object is erased -/
+theorem C17_removal_flag_after_erase_extracted (s0 : BSt) (h0 : RemovalFresh s0) (ops : List Op) (i : Nat) (st : Stmt)
+    (f : Nat) (hst : st ∈ ((runOps s0 ops).th i).accepted) (hk : st.kind = .removal f) (hf : f ∈ (runOps s0 ops).flags) :
+    ((runOps s0 ops).lgOf st.lg).erased = true :=
+  C17_removal_flag_after_erase s0 h0 ops i st f hst hk hf
 
 /-! ### C07 (drain part) -/
 
